@@ -293,6 +293,19 @@ def classify(case, res) -> Dict[str, List[str]]:
 
 def known_trigger(case, be, kind, det) -> Optional[Tuple[str, str]]:
     """narrow classifiers for the defects confirmed natively on the pinned tree"""
+    # same defect as C01:util.guess_carried_scalar_type:all-null-column -- a column without any non-null value is typed
+    # float (type of NaN): when EVERY value to be mapped is null, the unpivoted column_value column is "float" and the
+    # Pandas natural_join against the string-keyed mapping table refuses the key types
+    if (
+        case["helper"] == "def_multi_column_map"
+        and be == "pandas"
+        and kind == "raise"
+        and det.startswith("ValueError: join: incompatible column types")
+        and "column_value" in det
+        and len(case["rows"]) > 0
+        and all(r[1] is None and r[2] is None for r in case["rows"])
+    ):
+        return ("util.guess_carried_scalar_type", "all-null-column")
     return None
 
 
